@@ -11,6 +11,8 @@ import (
 	"fmt"
 	"go/ast"
 	"bytes"
+	"crypto/sha256"
+	"encoding/hex"
 	"go/parser"
 	"go/printer"
 	"go/token"
@@ -422,7 +424,7 @@ func translateArith(repo, out string) {
 			body += translateFunc(fd) + "\n"
 		}
 	}()
-	_ = os.WriteFile(out, []byte(header+body+guardFacts(repo)+skeletonFacts(repo)+"end Generated\nend Alliance\n"), 0o644)
+	_ = os.WriteFile(out, []byte(header+body+guardFacts(repo)+skeletonFacts(repo)+keyFacts(repo)+genesisFacts(repo)+"end Generated\nend Alliance\n"), 0o644)
 }
 
 // guardFacts: for every method of keeper.MsgServer, the conditions of its top-level validation guards (an `if` whose
@@ -521,5 +523,59 @@ func skeletonFacts(repo string) string {
 			fmt.Fprintf(&b, "def endBlockStatements : List String := %s\n\n", firstLines(fset, fd.Body))
 		}
 	}
+	return b.String()
+}
+
+
+// keyFacts: a fingerprint (SHA-256 of the printed declaration, comments and formatting excluded) of every function of
+// x/alliance/types/keys.go — the byte layout of the store keys, on which the model's "store iteration = key order" and the
+// index/queue access paths rest. Pinned on the Lean side (`C20.store_key_layout_as_modelled`): any edit of a key builder
+// or parser (a dropped length prefix, a slice cut with the wrong length field) breaks an `rfl`.
+func keyFacts(repo string) string {
+	return fingerprintFacts(repo, "x/alliance/types/keys.go", "keyFunctions",
+		"(declaration, fingerprint) for the key prefixes and every function of x/alliance/types/keys.go")
+}
+
+// genesisFacts: the same for x/alliance/keeper/genesis.go (`C18.genesis_code_as_modelled`): export and import are the
+// persistence format of the module; the model's `exportGenesis` / `initGenesis` were written from exactly this text.
+func genesisFacts(repo string) string {
+	return fingerprintFacts(repo, "x/alliance/keeper/genesis.go", "genesisFunctions",
+		"(declaration, fingerprint) for every function of x/alliance/keeper/genesis.go")
+}
+
+func fingerprintFacts(repo, file, defName, doc string) string {
+	fset := token.NewFileSet()
+	f, err := parser.ParseFile(fset, filepath.Join(repo, file), nil, 0)
+	if err != nil {
+		return "theorem " + defName + "_unreadable : (0 : Nat) = 1 := rfl\n"
+	}
+	var b strings.Builder
+	b.WriteString("/-- " + doc + " -/\ndef " + defName + " : List (String × String) := [\n")
+	first := true
+	nblock := 0
+	for _, d := range f.Decls {
+		name := ""
+		switch x := d.(type) {
+		case *ast.FuncDecl:
+			name = x.Name.Name
+		case *ast.GenDecl:
+			if x.Tok != token.VAR && x.Tok != token.CONST {
+				continue
+			}
+			nblock++
+			name = fmt.Sprintf("<%s block %d>", x.Tok.String(), nblock) // the key prefixes
+		default:
+			continue
+		}
+		var buf bytes.Buffer
+		_ = printer.Fprint(&buf, fset, d)
+		sum := sha256.Sum256(buf.Bytes())
+		if !first {
+			b.WriteString(",\n")
+		}
+		first = false
+		fmt.Fprintf(&b, "  (%q, %q)", name, hex.EncodeToString(sum[:8]))
+	}
+	b.WriteString("\n]\n\n")
 	return b.String()
 }
